@@ -6,7 +6,7 @@ from props import tftp_base as B
 
 ID = "C08"
 MODULE = "props.c08"
-THEOREM_MODULES = ["Vinegar.Theorems.C08"]
+THEOREM_MODULES = ["Vinegar.Theorems.C08", "Vinegar.Theorems.C07"]
 THEOREMS = [
     "Vinegar.C08.chunk_ref",
     "Vinegar.C08.stream_eq_ref",
@@ -14,6 +14,7 @@ THEOREMS = [
     "Vinegar.C08.netascii_payloadsOK",
     "Vinegar.C08.netascii_no_tsize",
     "Vinegar.C08.c08_runTransfer",
+    "Vinegar.C07.c07Check_runTransfer",
 ]
 TRUSTED_BASE = T.TRUSTED_BASE
 ASSUMPTIONS = T.ASSUMPTIONS
